@@ -78,11 +78,56 @@ func successReturns(f *ssa.Function) []*ssa.Return {
 	ei := errorResultIndex(f)
 	var out []*ssa.Return
 	for _, ret := range returnsOf(f) {
-		if ei < 0 || ei >= len(ret.Results) || isNilConst(ret.Results[ei]) || mayBeNilValue(ret.Results[ei], 0) {
+		if ei < 0 || ei >= len(ret.Results) || isNilConst(ret.Results[ei]) {
 			out = append(out, ret)
+			continue
 		}
+		if !mayBeNilValue(ret.Results[ei], 0) {
+			continue
+		}
+		// `if err != nil { return nil, err }`: the returned value was tested non-nil on every path to the return
+		ev := ret.Results[ei]
+		if guardedNonNil(ret, ev) {
+			continue
+		}
+		out = append(out, ret)
 	}
 	return out
+}
+
+// guardedNonNil: every path to instruction `at` passed the `!= nil` edge of a nil test of v (or of the value v
+// was converted from / loaded from the same cell).
+func guardedNonNil(at ssa.Instruction, v ssa.Value) bool {
+	cands := []ssa.Value{v}
+	for d := 0; d < 4; d++ {
+		last := cands[len(cands)-1]
+		switch x := last.(type) {
+		case *ssa.MakeInterface:
+			cands = append(cands, x.X)
+		case *ssa.ChangeInterface:
+			cands = append(cands, x.X)
+		case *ssa.UnOp:
+			if sv := localLoadValue(x); sv != nil {
+				cands = append(cands, sv)
+			} else {
+				d = 4
+			}
+		default:
+			d = 4
+		}
+	}
+	return Guarded(at, func(c ssa.Value, pol bool) bool {
+		x, eq, isNil := condIsNilTest(c)
+		if !isNil || eq == pol {
+			return false
+		}
+		for _, cv := range cands {
+			if x == cv {
+				return true
+			}
+		}
+		return false
+	})
 }
 
 // mayBeNilValue: conservative: true unless the value is certainly non-nil.
